@@ -389,6 +389,24 @@ def run(ctx, rep):
            "every worker (and the polling thread) blocks in put() and the pool is wedged for all clients" % (
                A.src(qv) if qv is not None else None), ctx.loc(qv) if qv is not None else fr.loc, kind="site")
 
+    # a worker that took a descriptor from the queue gives it back on every exit: to the poll set (idle), to the queue (more
+    # work / doubt) or to _drop_connection (dead) - a path that simply returns orphans the connection: nobody polls it, nobody
+    # serves it, its disconnect is never noticed and its descriptor stays open
+    fsr = ctx.cls(SRV + ".ThreadPoolServer").methods.get("_serve_requests")
+    if fsr is not None:
+        gsr = ctx.cfg(fsr, raises="std")
+        rep.analysed(fsr, gsr)
+        disp = {n.id for n in gsr.live if n.ast is not None and n.kind in ("stmt", "test") and (
+            A.find_calls(n.ast, "self._add_inactive_connection") or A.find_calls(n.ast, "self._active_connection_queue.put") or
+            A.find_calls(n.ast, "self._drop_connection"))}
+        rep.floor("R16.2", "descriptor hand-back sites in _serve_requests", len(disp), 3)
+        lost = Q.find_path_ef([gsr.entry], lambda x: x is gsr.exit or x is gsr.excexit,
+                              lambda a, b, l: b.id not in disp and not (l == "exc" and a.kind in ("for", "iter")))   # range() does not fail
+        rep.ob("R16.2", "ThreadPoolServer._serve_requests: the descriptor is handed back (poll set, queue or drop) on every exit",
+               lost is None, "every normal and exceptional exit passes one of the three hand-backs" if lost is None else
+               "a path leaves _serve_requests without re-registering, re-queueing or dropping the descriptor: the connection is "
+               "orphaned (never polled or served again, its socket and service instance leak)", fsr.loc,
+               witness=ctx.path(lost) if lost else None)
     # a new connection is in the descriptor table before the polling thread can hear about it (model evaluation of
     # ThreadPoolServer._accept_method: the model poll object notes, at registration time, whether the table has the entry)
     tpc = ctx.cls(SRV + ".ThreadPoolServer")
@@ -601,6 +619,7 @@ def run(ctx, rep):
     K.share(ctx, rep, "c04", lambda o: o.rule == "R04.7", "R16.5", floor=2)
     K.share(ctx, rep, "c07", lambda o: o.rule == "R07.4" and "off by default" in o.key, "R16.5", floor=2)
     K.share(ctx, rep, "c08", lambda o: o.rule == "R08.1" and o.key.startswith("_dispatch_request: failure of"), "R16.5", floor=3)
+    K.share(ctx, rep, "c08", lambda o: o.rule == "R08.1" and "local propagation" in o.key, "R16.5", floor=1)
     K.share(ctx, rep, "c11", lambda o: o.rule == "R11.3", "R16.5", floor=4)
     K.share(ctx, rep, "c05", lambda o: o.rule == "R05.3", "R16.5", floor=8)
     # a serving thread that blocks for ever on a leaked collection lock (a peer returning a reference it never got) is lost to
